@@ -1,318 +1,15 @@
 --------------------------------- MODULE Fsm ---------------------------------
-(* C07 MECHANISM LAYER: ONE peering session of the speaker under test, shaped like
-   pkg/server/fsm.go (one operator per handler branch) and pkg/server/server.go (admin operations):
-
-     idle()         M_IdleHoldExpired, M_Idle* admin branches
-     active()       M_ActiveInConn, M_ConsumeOut (outgoingConnCh), admin down
-     outgoingConnManager.run + connectLoop   ocm: off -> wait -> dial -> opensent -> (hands over | wait)
-     opensent()     M_HandleOpen branches, hold timer 240 s, collision branches
-     openconfirm()  KEEPALIVE -> Established, anything else -> close, timers of the PREVIOUS session
-     established()  hold / keepalive timers, fsm.notification slot, admin down, prefix limit
-     loop()/stateChange()/handleFSMMessage()  GoIdle, EnterActive, EnterEstablished
-
-   The state is one record m; MReact(m, e) is the state after environment event e including the
-   outputs m.o (messages per connection with timestamps, closed flags, ListPeer state, WatchEvent
-   stream, RIB digest) in exactly the shape the harness records.  Deliberate deviations of the
-   code from the RFCs are separate, named branches (comment "DEVIATION").  The property layer is
-   FsmRfc.tla; the design-level result is "mechanism => property layer modulo the named
-   deviations" (D_* invariants below, checked exhaustively by MCFsm). *)
-EXTENDS FsmRfc
+(* C07 SYSTEM SPEC: the mechanism layer (FsmMech.tla, shaped like pkg/server/fsm.go) driven by the
+   environment (every event that can be carried out, FsmMech!Enabled), with the property-layer
+   history (FsmRfc.tla) computed alongside.  Design-level result: "mechanism => property layer
+   modulo the named deviations" = the D_* invariants, checked exhaustively by MCFsm. *)
+EXTENDS FsmMech
 
 CONSTANTS Cfgs,          \* set of configuration records [passive, hold, peer, maxpfx, nbit, retry]
-          PeerHolds,     \* hold times the neighbour may put in its OPEN
-          Ticks,         \* Tick durations
           MaxSteps
 
 VARIABLES m, hh, last, steps
 vars == <<m, hh, last, steps>>
-
-IdleHoldDefault == 5       \* holdtimeIdle
-IdleHoldAfterReset == 30   \* DEFAULT_IDLE_HOLDTIME_AFTER_RESET
-FirstDial == 2             \* minConnectRetryInterval; the code waits 0.75..1.0 x this (interval)
-
-Msg(ty, t, code, sub, data, hold) == [t |-> t, ms |-> 0, ty |-> ty, code |-> code, sub |-> sub, data |-> data, hold |-> hold]
-NoCO == [known |-> FALSE, closed |-> FALSE, pend |-> 0, msgs |-> <<>>]
-NoC == [live |-> FALSE, rd |-> FALSE, hold |-> 0, unread |-> FALSE]
-
-MInit(cfg) ==
-  [cfg |-> cfg, now |-> 0, st |-> "Active", admin |-> "Up", deleted |-> FALSE, cur |-> "none",
-   ci |-> NoC, co |-> NoC,
-   idleT |-> -1, idleHold |-> IdleHoldDefault, osT |-> -1, ocKa |-> -1, ocHold |-> -1, ocK |-> 0,
-   estKa |-> -1, estHold |-> -1, neg |-> 0, prevNeg |-> 0,
-   ocm |-> IF cfg.passive THEN "off" ELSE "wait", ocmT |-> IF cfg.passive THEN -1 ELSE FirstDial, ocmHold |-> -1,
-   parkedConn |-> FALSE, parkedNotif |-> <<>>, stuck |-> FALSE, rib |-> 0,
-   o |-> [t |-> 0, ms |-> 0, st |-> "Active", admin |-> "Up", wev |-> <<>>, dial |-> FALSE,
-          ci |-> NoCO, co |-> NoCO, cx |-> NoCO, ribg |-> <<>>, riba |-> <<>>, admflag |-> FALSE, done |-> TRUE]]
-
-Pfx(n) == SubSeq(<<"10.1.0.0/24", "10.2.0.0/24", "10.3.0.0/24">>, 1, n)
-
-(* start of a step: forget the outputs of the previous one, keep what persists *)
-Fresh(s) == [s EXCEPT !.o.wev = <<>>, !.o.cx = NoCO,
-                      !.o.ci = [s.o.ci EXCEPT !.msgs = <<>>], !.o.co = [s.o.co EXCEPT !.msgs = <<>>]]
-(* end of a step: the API view *)
-Finish(s) == [s EXCEPT !.o.t = s.now, !.o.st = IF s.deleted THEN "None" ELSE s.st,
-                       !.o.admin = IF s.deleted THEN "None" ELSE s.admin,
-                       !.o.dial = s.ocm = "dial",
-                       !.o.ribg = Pfx(s.rib), !.o.riba = IF s.deleted THEN <<>> ELSE Pfx(s.rib)]
-
-Emit(s, c, msg) == [s EXCEPT !.o[c].msgs = Append(@, msg)]
-CloseC(s, c) == [s EXCEPT ![c] = NoC, !.o[c].closed = TRUE]
-SendNotif(s, c, code, sub, data) ==       \* fsm.sendNotification: write, close; admin reset sets the idle hold time
-  LET s1 == CloseC(Emit(s, c, Msg("NOTIFICATION", s.now, code, sub, data, 0)), c)
-  IN IF code = 6 /\ sub = 4 THEN [s1 EXCEPT !.idleHold = IdleHoldAfterReset] ELSE s1
-SendKa(s, c) == Emit(s, c, Msg("KEEPALIVE", s.now, 0, 0, "", 0))
-Wev(s, st) == [s EXCEPT !.st = st, !.o.wev = Append(@, [st |-> st, admin |-> s.admin, why |-> ""])]
-
-StopOcm(s) ==        \* outgoingConnManager.stop(): cancel, close its connection, drain the channel
-  LET s1 == IF s.ocm = "opensent" \/ s.parkedConn THEN CloseC(s, CO) ELSE s
-  IN [s1 EXCEPT !.ocm = "off", !.ocmT = -1, !.ocmHold = -1, !.parkedConn = FALSE]
-
-ClearTimers(s) == [s EXCEPT !.osT = -1, !.ocKa = -1, !.ocHold = -1, !.estKa = -1, !.estHold = -1]
-
-(* loop(): the handler returned Idle.  why = "admin": reason fsmAdminDown stops the ocm. *)
-GoIdle(s, why) ==
-  LET s1 == IF why = "admin" THEN StopOcm(s) ELSE s
-      s2 == ClearTimers([s1 EXCEPT !.cur = "none", !.idleT = s.now + s1.idleHold])
-      s3 == IF s.st = "Established" THEN [s2 EXCEPT !.rib = 0] ELSE s2
-      \* handleFSMMessage clears the neighbour's Timers.State when the admin state is Down
-      s4 == IF s3.admin = "Down" THEN [s3 EXCEPT !.prevNeg = 0] ELSE s3
-  IN Wev(s4, "Idle")
-
-StartOcm(s) == IF s.cfg.passive THEN s
-               ELSE [s EXCEPT !.ocm = "wait", !.ocmT = s.now + FirstDial]
-
-EnterOpenConfirm(s, c) ==     \* openconfirm(): timers from conf.Timers.State = those of the PREVIOUS session (DEVIATION)
-  LET k == KaInt(s.prevNeg) IN
-  Wev([ClearTimers(s) EXCEPT !.cur = c, !.ocK = k,
-         !.ocKa = IF s.prevNeg > 0 THEN s.now + (IF k = 0 THEN 1 ELSE k) ELSE -1,
-         !.ocHold = IF s.prevNeg > 0 THEN s.now + s.prevNeg ELSE -1], "OpenConfirm")
-
-(* active(): a connection handed over by the ocm is waiting in outgoingConnCh *)
-ConsumeOut(s) ==
-  IF ~s.co.live       \* the neighbour closed it meanwhile: the KEEPALIVE write fails, ocm restarted
-  THEN StartOcm([CloseC(s, CO) EXCEPT !.parkedConn = FALSE])
-  ELSE EnterOpenConfirm(SendKa([s EXCEPT !.parkedConn = FALSE, !.co.rd = TRUE], CO), CO)
-
-EnterActive(s) ==
-  LET s1 == Wev([s EXCEPT !.idleT = -1, !.idleHold = IdleHoldDefault], "Active")
-      s2 == IF s1.ocm = "off" /\ ~s1.parkedConn THEN StartOcm(s1) ELSE s1
-  IN IF s2.parkedConn THEN ConsumeOut(s2) ELSE s2
-
-EnterEstablished(s) ==
-  LET c == s.cur
-      n == NegHold(s.cfg.hold, s[c].hold)
-      k == KaInt(n)
-      s1 == Wev([ClearTimers(s) EXCEPT !.neg = n, !.prevNeg = n,
-                   !.estHold = IF n > 0 THEN s.now + n ELSE -1,
-                   !.estKa = IF n > 0 THEN s.now + (IF k = 0 THEN 1 ELSE k) ELSE -1], "Established")
-  IN IF s1.parkedNotif # <<>>
-     \* DEVIATION: a Cease parked by ResetPeer/ShutdownPeer while not established fires now
-     THEN GoIdle(SendNotif([s1 EXCEPT !.parkedNotif = <<>>], c, 6, s1.parkedNotif[1], s1.parkedNotif[2]), "notif")
-     ELSE s1
-
-(* ---------------------------------------------------------------------------------------- *)
-(* handleOpen(): verdict on one message received in (the FSM's or the ocm's) OpenSent.
-   Result <<>> = valid OPEN, else the NOTIFICATION <<code, sub>> *)
-HandleOpen(e) ==
-  CASE e.ev = "Open" ->
-         CASE e.kind \in {"ok", "unsupopt"} -> <<>>      \* DEVIATION: unsupported optional parameter accepted
-           [] e.kind = "badver" -> <<2, 1>>
-           [] e.kind = "badas" -> <<2, 2>>
-           [] e.kind = "badid" -> <<2, 3>>
-           [] e.kind \in {"hold1", "hold2"} -> <<2, 6>>
-           [] e.kind = "malopt" -> <<2, 7>>
-           [] OTHER -> <<1, 2>>                            \* short
-    [] e.ev = "Garbage" ->
-         CASE e.kind = "marker" -> <<1, 1>>
-           [] e.kind \in {"lenshort", "lenlong"} -> <<1, 2>>
-           [] e.kind = "type" -> <<1, 3>>
-           [] OTHER -> <<5, 1>>                            \* DEVIATION: kalen parsed as a KEEPALIVE
-    [] OTHER -> <<5, 1>>                                   \* KEEPALIVE, UPDATE, ROUTE-REFRESH, NOTIFICATION
-
-HeaderErr(e) == e.ev = "Garbage" /\ e.kind # "kalen"
-IsKeepalive(e) == e.ev = "Keepalive" \/ (e.ev = "Garbage" /\ e.kind = "kalen")   \* DEVIATION (kalen)
-
-(* ---------------------------------------------------------------------------------------- *)
-(* a message (or the neighbour's close) arrives on connection c *)
-OcmRecv(s, e) ==             \* outgoingConnManager.run, state OPENSENT
-  LET v == HandleOpen(e)
-      back == [s EXCEPT !.ocm = "wait", !.ocmT = s.now + FirstDial, !.ocmHold = -1]
-  IN
-  IF e.ev = "Close" THEN CloseC(back, CO)
-  ELSE IF v # <<>> THEN SendNotif(back, CO, v[1], v[2], "")
-  ELSE LET s1 == [s EXCEPT !.ocm = "off", !.ocmT = -1, !.ocmHold = -1, !.co.hold = e.hold, !.co.rd = FALSE] IN
-       IF s.st = "Active" THEN ConsumeOut([s1 EXCEPT !.parkedConn = TRUE])
-       ELSE IF s.st = "OpenSent" /\ ~s.stuck
-       \* opensent() "case result := <-fsm.outgoingConnCh": adopts the outgoing connection, sends the
-       \* KEEPALIVE, then blocks in the deferred wg.Wait() on the reader of the incoming one (DEVIATION)
-       THEN SendKa([s1 EXCEPT !.cur = CO, !.stuck = TRUE, !.osT = -1], CO)
-       \* nobody reads outgoingConnCh in Idle / OpenConfirm / Established: it stays parked (DEVIATION)
-       ELSE [s1 EXCEPT !.parkedConn = TRUE]
-
-Unstick(s, e) ==             \* the blocked reader of the incoming connection returned
-  LET s1 == [s EXCEPT !.stuck = FALSE, !.ci.rd = FALSE, !.co.rd = TRUE]
-      s2 == IF e.ev = "Close" THEN [s1 EXCEPT !.ci = NoC] ELSE [s1 EXCEPT !.ci.unread = TRUE]
-  IN EnterOpenConfirm(s2, CO)
-
-OpenSentRecv(s, e) ==        \* opensent(), fsm.conn = ci
-  LET v == HandleOpen(e) IN
-  IF e.ev = "Close" THEN GoIdle([s EXCEPT !.ci = NoC], "read")
-  ELSE IF v # <<>> THEN GoIdle(SendNotif(s, CI, v[1], v[2], ""), "invalid")
-  ELSE LET s1 == SendKa([s EXCEPT !.ci.hold = e.hold], CI)
-           \* "stop to try to connect": only an ocm that has no connection yet is stopped
-           s2 == IF s1.ocm \in {"wait", "dial"} THEN StopOcm(s1) ELSE s1
-       IN EnterOpenConfirm(s2, CI)
-
-OpenConfirmRecv(s, e) ==     \* openconfirm()
-  LET c == s.cur IN
-  IF e.ev = "Close" THEN GoIdle([s EXCEPT ![c] = NoC], "read")
-  ELSE IF IsKeepalive(e) THEN EnterEstablished(s)
-  ELSE IF HeaderErr(e) THEN LET v == HandleOpen(e) IN GoIdle(SendNotif(s, c, v[1], v[2], ""), "invalid")
-  ELSE GoIdle(CloseC(s, c), "invalid")          \* DEVIATION: "send notification ?" - closes silently
-
-EstablishedRecv(s, e) ==     \* recvMessageloop() + established()
-  LET c == s.cur
-      rearm == [s EXCEPT !.estHold = IF s.neg > 0 THEN s.now + s.neg ELSE -1]
-  IN
-  IF e.ev = "Close" THEN GoIdle([s EXCEPT ![c] = NoC], "read")
-  ELSE IF IsKeepalive(e) THEN rearm
-  ELSE IF e.ev = "Update" THEN
-       IF s.cfg.maxpfx > 0 /\ e.n > s.cfg.maxpfx
-       THEN GoIdle(SendNotif([rearm EXCEPT !.admin = "PfxCt"], c, 6, 1, ""), "read")
-       ELSE [rearm EXCEPT !.rib = Max(s.rib, e.n)]
-  ELSE IF e.ev = "Refresh" THEN s
-  ELSE IF e.ev = "Open" THEN s                   \* DEVIATION: OPEN in Established is passed up and ignored
-  ELSE IF e.ev = "Notif" THEN GoIdle(CloseC(s, c), "notifrecv")
-  ELSE LET v == HandleOpen(e) IN GoIdle(SendNotif(s, c, v[1], v[2], ""), "notif")
-
-Recv(s, e) ==
-  LET c == CId(e) IN
-  IF ~s[c].live THEN s
-  ELSE IF s.stuck THEN (IF c = CI THEN Unstick(s, e) ELSE s)
-  ELSE IF c = CO /\ s.ocm = "opensent" THEN OcmRecv(s, e)
-  ELSE IF c # s.cur THEN                          \* parked / leaked connection: nobody reads it
-       IF e.ev = "Close" THEN [s EXCEPT ![c].live = FALSE] ELSE [s EXCEPT ![c].unread = TRUE]
-  ELSE CASE s.st = "OpenSent" -> OpenSentRecv(s, e)
-         [] s.st = "OpenConfirm" -> OpenConfirmRecv(s, e)
-         [] s.st = "Established" -> EstablishedRecv(s, e)
-         [] OTHER -> s
-
-(* ---------------------------------------------------------------------------------------- *)
-InConnect(s) ==
-  IF s.ci.live \/ s.deleted \/ s.st # "Active" \/ s.admin # "Up" \/ s.stuck
-  THEN [s EXCEPT !.o[IF s.ci.live THEN "cx" ELSE CI] = [NoCO EXCEPT !.known = TRUE, !.closed = TRUE]]
-  ELSE \* active() "case conn := <-fsm.connCh": send OPEN, OpenSent, hold timer 240 s
-       Wev([s EXCEPT !.ci = [NoC EXCEPT !.live = TRUE, !.rd = TRUE], !.cur = CI, !.osT = s.now + LargeHold,
-              !.o.ci = [NoCO EXCEPT !.known = TRUE, !.msgs = <<Msg("OPEN", s.now, 0, 0, "", s.cfg.hold)>>]],
-           "OpenSent")
-
-OutConnect(s) ==     \* connectLoop returned a connection: the ocm sends its OPEN, hold timer 240 s
-  [s EXCEPT !.co = [NoC EXCEPT !.live = TRUE, !.rd = TRUE], !.ocm = "opensent", !.ocmT = -1,
-            !.ocmHold = s.now + LargeHold,
-            !.o.co = [NoCO EXCEPT !.known = TRUE, !.msgs = <<Msg("OPEN", s.now, 0, 0, "", s.cfg.hold)>>]]
-OutFail(s) == [s EXCEPT !.ocm = "wait", !.ocmT = s.now + s.cfg.retry]
-
-(* ---------------------------------------------------------------------------------------- *)
-(* administrative operations (server.go) *)
-Disable(s, comm) ==
-  LET s1 == [s EXCEPT !.admin = "Down"] IN
-  CASE s.st = "Idle" -> [s1 EXCEPT !.idleT = -1]
-    [] s.st = "Active" -> GoIdle(s1, "admin")
-    \* DEVIATION: OpenSent / OpenConfirm close without the Cease (also the ocm's connection)
-    [] s.st \in {"OpenSent", "OpenConfirm"} -> GoIdle(CloseC(s1, s.cur), "admin")
-    [] OTHER -> GoIdle(SendNotif(s1, s.cur, 6, 2, CommHex(comm)), "admin")
-
-Enable(s) ==
-  IF s.st = "Idle" THEN [s EXCEPT !.admin = "Up", !.idleT = s.now + s.idleHold]
-  ELSE s
-
-OneShot(s, sub, comm) ==      \* ShutdownPeer / ResetPeer: fsm.notification, one slot
-  IF s.st = "Established" THEN GoIdle(SendNotif(s, s.cur, 6, sub, CommHex(comm)), "notif")
-  ELSE IF s.parkedNotif = <<>> THEN [s EXCEPT !.parkedNotif = <<sub, CommHex(comm)>>]   \* DEVIATION (parked)
-  ELSE s
-
-Delete(s) ==
-  LET s1 == IF s.st = "Established" THEN SendNotif(s, s.cur, 6, 3, "")
-            ELSE IF s.cur # "none" /\ s[s.cur].live THEN CloseC(s, s.cur) ELSE s     \* DEVIATION (no Cease)
-      s2 == StopOcm(s1)                                     \* loop() exit closes fsm.conn only; leaked ones stay
-  IN Wev([ClearTimers(s2) EXCEPT !.deleted = TRUE, !.cur = "none", !.idleT = -1, !.rib = 0, !.stuck = FALSE], "Idle")
-
-(* ---------------------------------------------------------------------------------------- *)
-(* timers *)
-Deadlines(s) == {d \in {s.idleT, s.osT, s.ocKa, s.ocHold, s.estKa, s.estHold, s.ocmT, s.ocmHold} : d >= 0}
-NextDl(s) == IF Deadlines(s) = {} THEN -1
-             ELSE CHOOSE d \in Deadlines(s) : \A x \in Deadlines(s) : d <= x
-
-Fire(s0) ==          \* exactly one timer whose deadline is s.now fires (KEEPALIVE tickers first)
-  LET s == s0 IN
-  IF s.estKa = s.now THEN SendKa([s EXCEPT !.estKa = s.now + (IF KaInt(s.neg) = 0 THEN 1 ELSE KaInt(s.neg))], s.cur)
-  ELSE IF s.ocKa = s.now THEN SendKa([s EXCEPT !.ocKa = s.now + (IF s.ocK = 0 THEN 1 ELSE s.ocK)], s.cur)
-  ELSE IF s.estHold = s.now THEN GoIdle(SendNotif(s, s.cur, 4, 0, ""), "hold")
-  ELSE IF s.ocHold = s.now THEN GoIdle(SendNotif(s, s.cur, 4, 0, ""), "hold")
-  ELSE IF s.osT = s.now THEN GoIdle(SendNotif(s, s.cur, 4, 0, ""), "hold")
-  ELSE IF s.ocmHold = s.now THEN SendNotif([s EXCEPT !.ocm = "wait", !.ocmT = s.now + FirstDial, !.ocmHold = -1], CO, 4, 0, "")
-  ELSE IF s.ocmT = s.now THEN [s EXCEPT !.ocm = "dial", !.ocmT = -1]
-  ELSE IF s.idleT = s.now THEN (IF s.admin = "Up" THEN EnterActive(s) ELSE [s EXCEPT !.idleT = -1])
-  ELSE s
-
-RECURSIVE Advance(_, _)
-Advance(s, target) ==
-  LET d == NextDl(s) IN
-  IF s.stuck \/ s.deleted THEN [s EXCEPT !.now = target]      \* the FSM goroutine is blocked / gone
-  ELSE IF d >= 0 /\ d <= target THEN Advance(Fire([s EXCEPT !.now = d]), target)
-  ELSE [s EXCEPT !.now = target]
-
-(* ---------------------------------------------------------------------------------------- *)
-MStep(s0, e) ==
-  LET s == Fresh(s0) IN
-  Finish(
-   CASE e.ev = "Tick" -> Advance(s, s.now + e.d)
-     [] e.ev = "InConnect" -> InConnect(s)
-     [] e.ev = "OutConnect" -> OutConnect(s)
-     [] e.ev = "OutFail" -> OutFail(s)
-     [] e.ev \in MsgEvents -> Recv(s, e)
-     [] e.ev = "Disable" -> Disable(s, e.comm)
-     [] e.ev = "Enable" -> Enable(s)
-     [] e.ev = "Shutdown" -> OneShot(s, 2, e.comm)
-     [] e.ev = "ResetPeer" -> OneShot(s, 4, e.comm)
-     [] e.ev = "Delete" -> Delete(s)
-     [] OTHER -> s)
-
-(* zero-delay timers (idle hold 0 of the very first Idle) are already folded into MInit *)
-
-(* ---------------------------------------------------------------------------------------- *)
-(* environment: the events that can be carried out in state s (used by Next and by FsmGen) *)
-Ev(ev, c, kind, hold, d, n, code, sub, comm) ==
-  [ev |-> ev, c |-> c, kind |-> kind, hold |-> hold, d |-> d, n |-> n, code |-> code, sub |-> sub, comm |-> comm]
-CName(c) == IF c = CO THEN "out" ELSE "in"
-
-OpenKinds == {"ok", "badver", "badas", "badid", "hold1", "hold2", "unsupopt", "malopt", "short"}
-GarbageKinds == {"marker", "lenshort", "lenlong", "type", "kalen"}
-
-Readable(s, c) == s[c].live /\ s[c].rd /\ ~s[c].unread
-   /\ (s.stuck => c = CI)
-   /\ (c = CO => (s.ocm = "opensent" \/ s.cur = CO))
-
-MsgsOn(s, c) ==
-  LET opens == IF (c = s.cur /\ s.st \in {"OpenConfirm", "Established"} /\ ~s.stuck)
-               THEN {Ev("Open", CName(c), "ok", h, 0, 0, 0, 0, "") : h \in PeerHolds}
-               ELSE {Ev("Open", CName(c), k, h, 0, 0, 0, 0, "") : k \in OpenKinds, h \in PeerHolds}
-  IN opens
-     \cup {Ev("Keepalive", CName(c), "", 0, 0, 0, 0, 0, ""), Ev("Refresh", CName(c), "", 0, 0, 0, 0, 0, ""),
-           Ev("Notif", CName(c), "", 0, 0, 0, 6, 2, "")}
-     \cup {Ev("Update", CName(c), "", 0, 0, n, 0, 0, "") : n \in {1, 2}}
-     \cup {Ev("Garbage", CName(c), k, 0, 0, 0, 0, 0, "") : k \in GarbageKinds}
-
-Enabled(s) ==
-  {Ev("Tick", "", "", 0, d, 0, 0, 0, "") : d \in Ticks}
-  \cup (IF s.deleted THEN {} ELSE
-     (IF s.stuck THEN {} ELSE
-        {Ev("Enable", "", "", 0, 0, 0, 0, 0, ""), Ev("Delete", "", "", 0, 0, 0, 0, 0, "")}
-        \cup {Ev(a, "", "", 0, 0, 0, 0, 0, cm) : a \in {"Disable", "Shutdown", "ResetPeer"}, cm \in {"", "hi"}})
-     \cup (IF s.ocm = "dial" THEN {Ev("OutConnect", "", "", 0, 0, 0, 0, 0, ""), Ev("OutFail", "", "", 0, 0, 0, 0, 0, "")} ELSE {})
-     \cup UNION {IF Readable(s, c) THEN MsgsOn(s, c) ELSE {} : c \in ConnIds}
-     \cup {Ev("Close", CName(c), "", 0, 0, 0, 0, 0, "") : c \in {x \in ConnIds : s[x].live}})
-  \cup (IF s.ci.live /\ (s.st = "Active" \/ s.stuck) THEN {} ELSE {Ev("InConnect", "", "", 0, 0, 0, 0, 0, "")})
 
 (* ---------------------------------------------------------------------------------------- *)
 NoEv == Ev("Reset", "", "", 0, 0, 0, 0, 0, "")
@@ -346,13 +43,14 @@ D_C07_Notif_OpenConfirmUnexpected == DKF("OCUnexpected", Dev_OCUnexpected(last.h
 D_C07_Notif_EstablishedOpen == DKF("EstOpen", Dev_EstOpen(last.h, last.e, last.o))
 D_C07_Notif_UnsupportedOptParam == DKF("UnsupOpt", Dev_UnsupOpt(last.h, last.e, last.o))
 D_C07_Notif_KeepaliveLength == DKF("KaLen", Dev_KaLen(last.h, last.e, last.o))
+D_C07_Notif_OpenWhileIdle == DKF("IdleOpen", Dev_IdleOpen(last.h, last.e, last.o))
 D_C07_Notif_ManualStopEarly == DKF("ManualStopEarly", Dev_ManualStopEarly(last.h, last.e, last.o))
 D_C07_Notif_NoSpurious == DKF("Spurious", Dev_Spurious(last.h, last.e, last.o))
 D_C07_TimerInstant == DJ => (DS \/ P_TimerInstant(last.h, last.e, last.o, LargeHold))
 D_C07_Timer_OpenConfirm ==
   DJ => (DS \/ P_Timer_OpenConfirm(last.h, last.e, last.o, LargeHold) \/ Dev_Timer_OpenConfirm(last.h, last.e, last.o, LargeHold))
 D_C07_NoRibEffectBeforeEstablished == DJ => (DS \/ P_NoRibEffectBeforeEstablished(last.h, last.e, last.o))
-D_C07_ReportedMatchesReal == DJ => (DS \/ hh.susp \/ P_ReportedMatchesReal(last.h, last.e, last.o, hh))
+D_C07_ReportedMatchesReal == DJ => (DS \/ hh.susp \/ Dev_DownButOutgoing(last.h, last.e, last.o, hh))
 
 (* sanity of the mechanism itself *)
 D_TypeOK == /\ m.st \in {"Idle", "Active", "OpenSent", "OpenConfirm", "Established"}
